@@ -589,6 +589,44 @@ func stmtsBeforeRange(fd *ast.FuncDecl, over string) ([]string, bool) {
 	return out, found
 }
 
+// fieldAssignments lists, in source order, the assignments to fields of the variable named recv inside fd:
+// "<field> = <expr>" (a composite literal is rendered by its type only).
+func fieldAssignments(fd *ast.FuncDecl, recv string) []string {
+	var out []string
+	if fd == nil {
+		return nil
+	}
+	ast.Inspect(fd.Body, func(n ast.Node) bool {
+		as, ok := n.(*ast.AssignStmt)
+		if !ok {
+			return true
+		}
+		for i, l := range as.Lhs {
+			se, ok := l.(*ast.SelectorExpr)
+			if !ok || i >= len(as.Rhs) {
+				continue
+			}
+			if id, ok := se.X.(*ast.Ident); !ok || id.Name != recv {
+				continue
+			}
+			var r ast.Expr = as.Rhs[i]
+			if u, ok := r.(*ast.UnaryExpr); ok {
+				if cl, ok := u.X.(*ast.CompositeLit); ok {
+					out = append(out, se.Sel.Name+" = &"+types.ExprString(cl.Type)+"{...}")
+					continue
+				}
+			}
+			if cl, ok := r.(*ast.CompositeLit); ok {
+				out = append(out, se.Sel.Name+" = "+types.ExprString(cl.Type)+"{...}")
+				continue
+			}
+			out = append(out, se.Sel.Name+" = "+types.ExprString(r))
+		}
+		return true
+	})
+	return out
+}
+
 // goStmts lists "<func>: go <callee>" for every go statement of the package ("go func" for a function literal).
 func goStmts(p *pkg) []string {
 	fns := p.allFuncs()
@@ -1038,6 +1076,11 @@ func main() {
 			})
 		}
 		e.z("flushInterval", flush, flushErr, 100000000, "agent hostProxy: ReverseProxy.FlushInterval (ns)")
+		{
+			hp := a.funcDecl("hostProxy")
+			e.strs("reverseProxySetup", fieldAssignments(hp, "hostProxy"), hp != nil, []string{"Transport = &http2.Transport{...}", "FlushInterval = 100 * time.Millisecond", "ModifyResponse = shimFunc"},
+				"agent hostProxy: every field of the httputil.ReverseProxy that is set (the transport of the --force-http2 mode, the flush interval, and the shim-script splice as the only response hook: nothing else sits between the backend's response and the response writer)")
+		}
 		var forced []string
 		if fd := u.funcDecl("NewResponseForwarder"); fd != nil {
 			ast.Inspect(fd.Body, func(n ast.Node) bool {
